@@ -14,7 +14,7 @@ MANIFEST = {
     "category": "proof",
     "technique": "contracts on _kron_mult / rotate_psi / rotate_rho / rotate_psi_inner_prod / rotate_rho_probs / create_dict, bodies executed on symbolic unitaries, psi and rho; obligations discharged by polynomial normal form and z3",
     "text": "With every non-Z letter of the basis string bound to a fully symbolic complex 2x2 matrix (so user-added unitaries are covered), psi an arbitrary symbolic complex vector and rho an arbitrary symbolic complex (non-Hermitian, non-symmetric) matrix, the real functions must return exactly U psi, U rho U^dagger and their entries / real diagonal for the dense Kronecker product U built from its definition (site 0 leftmost), for explicit and model-derived states, with and without extras, for batches with repeats in any order. The default dictionary is checked to hold Z = 1 and the +1/-1 eigen-rows of Pauli X, Y, to be unitary, and rotated probabilities of a physical state to be non-negative and to sum to the normalisation.",
-    "note": "floats as reals; the constant float(1/np.sqrt(2)) and its float products are treated as the algebraic number sqrt(1/2)^k; strings enumerated (quick n<=2, thorough all 3^n for n<=3 plus 20 seeded strings at n=4, each also with an added unitary), values unbounded",
+    "note": "floats as reals; the constant float(1/np.sqrt(2)) and its float products are treated as the algebraic number sqrt(1/2)^k; strings enumerated (quick n<=2, thorough all 3^n for n<=3, with an added unitary for five strings of up to 3 sites; four-site strings and 9-12 sites by the bounded driver), values unbounded",
 }
 EXPLANATION = "symbolic unitaries per letter, symbolic psi/rho entries; compared with dense Kronecker product built from the definition"
 TRUSTED = ["float(1/np.sqrt(2)) and its float products are the algebraic constants sqrt(1/2)^k (recognised within a few ulp)"]
@@ -28,11 +28,9 @@ def configs(tier):
         strings = []
         for n in (1, 2, 3):
             strings += ["".join(s) for s in itertools.product("XYZ", repeat=n)]
-        import random
-        rnd = random.Random(4)
-        all4 = ["".join(s) for s in itertools.product("XYZ", repeat=4)]
-        strings += rnd.sample(all4, 8)         # 4-site strings cost minutes each (layout and element-type obligations included)
-        strings += ["H", "HX", "ZH", "YHZ", "HYX", "XHZY"]
+        # four-site strings are left to the drivers: with the layout, element-type and grad-off obligations a symbolic
+        # four-site rotation takes more than half an hour and several GB
+        strings += ["H", "HX", "ZH", "YHZ", "HYX"]
     for s in strings:
         out.append({"mode": "symbolic", "basis": s})
     dstr = ["X", "Y", "Z", "XY", "YX", "YZ", "ZX", "YY"] if tier == "quick" else \
